@@ -19,6 +19,9 @@ namespace Docstring
 @[simp] theorem setSummary_reports (st : St) (o : Obj) (pd : PD) : (setSummary st o pd).reports = st.reports := rfl
 @[simp] theorem setPType_errors (st : St) (o : Obj) (b : Body) : (setPType st o b).errors = st.errors := rfl
 @[simp] theorem setPType_reports (st : St) (o : Obj) (b : Body) : (setPType st o b).reports = st.reports := rfl
+@[simp] theorem setParsed_reported (st : St) (o : Obj) (pd : PD) : (setParsed st o pd).reported = st.reported := rfl
+@[simp] theorem setSummary_reported (st : St) (o : Obj) (pd : PD) : (setSummary st o pd).reported = st.reported := rfl
+@[simp] theorem setPType_reported (st : St) (o : Obj) (b : Body) : (setPType st o b).reported = st.reported := rfl
 
 @[simp] theorem setParsed_self (st : St) (o : Obj) (pd : PD) :
     ((setParsed st o pd).objs o).parsed = some pd := by simp [setParsed]
@@ -62,31 +65,53 @@ theorem setSummary_ne (st : St) (o x : Obj) (pd : PD) (h : x ≠ o) :
 theorem setPType_ne (st : St) (o x : Obj) (b : Body) (h : x ≠ o) :
     (setPType st o b).objs x = st.objs x := by simp [setPType, h]
 
-@[simp] theorem reportErrors_objs (st : St) (o : Obj) (errs : List Err) (sec : Sec) :
-    (reportErrors st o errs sec).objs = st.objs := by
+@[simp] theorem reportErrors_objs (st : St) (o : Obj) (errs : List Err) (sec : Sec) (ph : Phase) :
+    (reportErrors st o errs sec ph).objs = st.objs := by
   unfold reportErrors; split
   · rfl
   · split <;> rfl
 
-theorem reportErrors_noop (st : St) (o : Obj) (errs : List Err) (sec : Sec)
-    (h : (sec, o) ∈ st.errors) : reportErrors st o errs sec = st := by
+theorem reportErrors_noop (st : St) (o : Obj) (errs : List Err) (sec : Sec) (ph : Phase)
+    (h : (sec, o, ph) ∈ st.reported) : reportErrors st o errs sec ph = st := by
   simp [reportErrors, h]
 
-theorem reportErrors_nil (st : St) (o : Obj) (sec : Sec) : reportErrors st o [] sec = st := by
+theorem reportErrors_nil (st : St) (o : Obj) (sec : Sec) (ph : Phase) : reportErrors st o [] sec ph = st := by
   simp [reportErrors]
 
 /-- what a fresh report group looks like -/
-theorem reportErrors_fresh (st : St) (o : Obj) (errs : List Err) (sec : Sec) (h : errs ≠ [])
-    (hn : (sec, o) ∉ st.errors) :
-    (reportErrors st o errs sec).errors = st.errors ++ [(sec, o)] ∧
-    (reportErrors st o errs sec).reports = st.reports ++ errs.map fun e => ⟨o, sec, e.descr, e.offset⟩ := by
+theorem reportErrors_fresh (st : St) (o : Obj) (errs : List Err) (sec : Sec) (ph : Phase) (h : errs ≠ [])
+    (hn : (sec, o, ph) ∉ st.reported) :
+    (reportErrors st o errs sec ph).reported = st.reported ++ [(sec, o, ph)] ∧
+    (reportErrors st o errs sec ph).errors = (if st.errors.contains (sec, o) then st.errors else st.errors ++ [(sec, o)]) ∧
+    (reportErrors st o errs sec ph).reports = st.reports ++ errs.map fun e => ⟨o, sec, e.descr, e.offset⟩ := by
   simp [reportErrors, h, hn]
 
-theorem reportErrors_mem (st : St) (o : Obj) (errs : List Err) (sec : Sec) (h : errs ≠ []) :
-    (sec, o) ∈ (reportErrors st o errs sec).errors := by
-  by_cases hc : (sec, o) ∈ st.errors
-  · rw [reportErrors_noop _ _ _ _ hc]; exact hc
-  · rw [(reportErrors_fresh st o errs sec h hc).1]; simp
+theorem reportErrors_errors_mono (st : St) (o : Obj) (errs : List Err) (sec : Sec) (ph : Phase) :
+    ∀ p ∈ st.errors, p ∈ (reportErrors st o errs sec ph).errors := by
+  intro p hp
+  unfold reportErrors
+  split
+  · exact hp
+  · split
+    · exact hp
+    · simp only []; split
+      · exact hp
+      · exact List.mem_append_left _ hp
+
+/-- after a non-empty report attempt the key is recorded; and if it was recorded by THIS call or an
+earlier one the object counts as having errors whenever it was added then (see `Inv`) -/
+theorem reportErrors_key (st : St) (o : Obj) (errs : List Err) (sec : Sec) (ph : Phase) (h : errs ≠ []) :
+    (sec, o, ph) ∈ (reportErrors st o errs sec ph).reported := by
+  by_cases hc : (sec, o, ph) ∈ st.reported
+  · rw [reportErrors_noop _ _ _ _ _ hc]; exact hc
+  · rw [(reportErrors_fresh st o errs sec ph h hc).1]; simp
+
+theorem reportErrors_fresh_mem (st : St) (o : Obj) (errs : List Err) (sec : Sec) (ph : Phase) (h : errs ≠ [])
+    (hn : (sec, o, ph) ∉ st.reported) : (sec, o) ∈ (reportErrors st o errs sec ph).errors := by
+  rw [(reportErrors_fresh st o errs sec ph h hn).2.1]
+  split
+  · rename_i hc; simpa using hc
+  · simp
 
 /-! ## the frame invariant: what one call may change
 
@@ -100,11 +125,15 @@ structure Frame (T : Obj → Prop) (src : Obj) (sec : Sec) (st st' : St) : Prop 
   ptype : ∀ x, ¬ T x → (st'.objs x).ptype = (st.objs x).ptype
   errors_mono : ∀ p ∈ st.errors, p ∈ st'.errors
   errors_new : ∀ p ∈ st'.errors, p ∈ st.errors ∨ p = (sec, src)
+  reported_mono : ∀ k ∈ st.reported, k ∈ st'.reported
+  reported_new : ∀ k ∈ st'.reported, k ∈ st.reported ∨ (k.1 = sec ∧ k.2.1 = src)
   reports : ∃ new, st'.reports = st.reports ++ new ∧
-      ∀ r ∈ new, r.obj = src ∧ r.sec = sec ∧ (sec, src) ∉ st.errors ∧ (sec, src) ∈ st'.errors
+      ∀ r ∈ new, r.obj = src ∧ r.sec = sec ∧ (sec, src) ∈ st'.errors ∧
+        ∃ ph, (sec, src, ph) ∉ st.reported ∧ (sec, src, ph) ∈ st'.reported
 
 theorem Frame.refl (T : Obj → Prop) (src : Obj) (sec : Sec) (st : St) : Frame T src sec st st :=
-  ⟨fun _ => rfl, fun _ _ => rfl, fun _ _ _ => rfl, fun _ _ => rfl, fun _ h => h, fun _ h => .inl h, ⟨[], by simp⟩⟩
+  ⟨fun _ => rfl, fun _ _ => rfl, fun _ _ _ => rfl, fun _ _ => rfl, fun _ h => h, fun _ h => .inl h,
+   fun _ h => h, fun _ h => .inl h, ⟨[], by simp⟩⟩
 
 theorem Frame.trans {T : Obj → Prop} {src : Obj} {sec : Sec} {a b c : St}
     (h1 : Frame T src sec a b) (h2 : Frame T src sec b c) : Frame T src sec a c := by
@@ -112,72 +141,85 @@ theorem Frame.trans {T : Obj → Prop} {src : Obj} {sec : Sec} {a b c : St}
           fun x hx => (h2.parsed x hx).trans (h1.parsed x hx),
           fun x hx hs => (h2.summary x hx hs).trans (h1.summary x hx hs),
           fun x hx => (h2.ptype x hx).trans (h1.ptype x hx),
-          fun p hp => h2.errors_mono p (h1.errors_mono p hp), ?_, ?_⟩
+          fun p hp => h2.errors_mono p (h1.errors_mono p hp), ?_,
+          fun k hk => h2.reported_mono k (h1.reported_mono k hk), ?_, ?_⟩
   · intro p hp
     rcases h2.errors_new p hp with h | h
     · exact h1.errors_new p h
+    · exact .inr h
+  · intro k hk
+    rcases h2.reported_new k hk with h | h
+    · exact h1.reported_new k h
     · exact .inr h
   · obtain ⟨n1, e1, p1⟩ := h1.reports
     obtain ⟨n2, e2, p2⟩ := h2.reports
     refine ⟨n1 ++ n2, by rw [e2, e1, List.append_assoc], ?_⟩
     intro r hr
     rcases List.mem_append.mp hr with h | h
-    · obtain ⟨x1, x2, x3, x4⟩ := p1 r h
-      exact ⟨x1, x2, x3, h2.errors_mono _ x4⟩
-    · obtain ⟨x1, x2, x3, x4⟩ := p2 r h
-      exact ⟨x1, x2, fun hc => x3 (h1.errors_mono _ hc), x4⟩
+    · obtain ⟨x1, x2, x3, ph, x4, x5⟩ := p1 r h
+      exact ⟨x1, x2, h2.errors_mono _ x3, ph, x4, h2.reported_mono _ x5⟩
+    · obtain ⟨x1, x2, x3, ph, x4, x5⟩ := p2 r h
+      exact ⟨x1, x2, x3, ph, fun hc => x4 (h1.reported_mono _ hc), x5⟩
 
 theorem Frame.mono {T T' : Obj → Prop} {src : Obj} {sec : Sec} {a b : St} (h : Frame T src sec a b)
     (hT : ∀ x, T x → T' x) : Frame T' src sec a b :=
   ⟨h.docstring, fun x hx => h.parsed x (fun c => hx (hT x c)), fun x hx hs => h.summary x (fun c => hx (hT x c)) hs,
-   fun x hx => h.ptype x (fun c => hx (hT x c)), h.errors_mono, h.errors_new, h.reports⟩
+   fun x hx => h.ptype x (fun c => hx (hT x c)), h.errors_mono, h.errors_new, h.reported_mono, h.reported_new, h.reports⟩
 
-theorem frame_reportErrors (T : Obj → Prop) (src : Obj) (sec : Sec) (st : St) (errs : List Err) :
-    Frame T src sec st (reportErrors st src errs sec) := by
+theorem frame_reportErrors (T : Obj → Prop) (src : Obj) (sec : Sec) (st : St) (errs : List Err) (ph : Phase) :
+    Frame T src sec st (reportErrors st src errs sec ph) := by
   by_cases he : errs = []
   · subst he; rw [reportErrors_nil]; exact Frame.refl _ _ _ _
-  by_cases hm : (sec, src) ∈ st.errors
-  · rw [reportErrors_noop _ _ _ _ hm]; exact Frame.refl _ _ _ _
-  obtain ⟨e1, e2⟩ := reportErrors_fresh st src errs sec he hm
-  refine ⟨by simp, by simp, by simp, by simp, ?_, ?_, ?_⟩
-  · intro p hp; rw [e1]; exact List.mem_append_left _ hp
+  by_cases hm : (sec, src, ph) ∈ st.reported
+  · rw [reportErrors_noop _ _ _ _ _ hm]; exact Frame.refl _ _ _ _
+  obtain ⟨e0, e1, e2⟩ := reportErrors_fresh st src errs sec ph he hm
+  refine ⟨by simp, by simp, by simp, by simp, reportErrors_errors_mono _ _ _ _ _, ?_, ?_, ?_, ?_⟩
   · intro p hp; rw [e1] at hp
-    rcases List.mem_append.mp hp with h | h
+    split at hp
+    · exact .inl hp
+    · rcases List.mem_append.mp hp with h | h
+      · exact .inl h
+      · exact .inr (by simpa using h)
+  · intro k hk; rw [e0]; exact List.mem_append_left _ hk
+  · intro k hk; rw [e0] at hk
+    rcases List.mem_append.mp hk with h | h
     · exact .inl h
-    · exact .inr (by simpa using h)
+    · right; simp at h; subst h; exact ⟨rfl, rfl⟩
   · refine ⟨_, e2, ?_⟩
     intro r hr
     obtain ⟨e, _, rfl⟩ := List.mem_map.mp hr
-    exact ⟨rfl, rfl, hm, by rw [e1]; simp⟩
+    exact ⟨rfl, rfl, reportErrors_fresh_mem _ _ _ _ _ he hm, ph, hm, by rw [e0]; simp⟩
 
 theorem frame_setParsed (T : Obj → Prop) (src : Obj) (sec : Sec) (st : St) (o : Obj) (pd : PD) (hT : T o) :
     Frame T src sec st (setParsed st o pd) :=
   ⟨by simp, fun x hx => by rw [setParsed_ne _ _ _ _ (fun c => by subst c; exact hx hT)], by simp, by simp,
-   fun _ h => h, fun _ h => .inl h, ⟨[], by simp⟩⟩
+   fun _ h => h, fun _ h => .inl h, fun _ h => h, fun _ h => .inl h, ⟨[], by simp⟩⟩
 
 theorem frame_setPType (T : Obj → Prop) (src : Obj) (sec : Sec) (st : St) (o : Obj) (b : Body) (hT : T o) :
     Frame T src sec st (setPType st o b) :=
   ⟨by simp, by simp, by simp, fun x hx => by rw [setPType_ne _ _ _ _ (fun c => by subst c; exact hx hT)],
-   fun _ h => h, fun _ h => .inl h, ⟨[], by simp⟩⟩
+   fun _ h => h, fun _ h => .inl h, fun _ h => h, fun _ h => .inl h, ⟨[], by simp⟩⟩
 
 theorem frame_setSummary (T : Obj → Prop) (src : Obj) (sec : Sec) (st : St) (o : Obj) (pd : PD)
     (hT : T o ∨ o = src) : Frame T src sec st (setSummary st o pd) :=
   ⟨by simp, by simp,
    fun x hx hs => by
      rw [setSummary_ne _ _ _ _ (fun c => by subst c; rcases hT with h | h; exact hx h; exact hs h)],
-   by simp, fun _ h => h, fun _ h => .inl h, ⟨[], by simp⟩⟩
+   by simp, fun _ h => h, fun _ h => .inl h, fun _ h => h, fun _ h => .inl h, ⟨[], by simp⟩⟩
 
 theorem Frame.of_eq {T : Obj → Prop} {src : Obj} {sec : Sec} {st st' : St} (h1 : st'.objs = st.objs)
-    (h2 : st'.errors = st.errors) (h3 : st'.reports = st.reports) : Frame T src sec st st' :=
+    (h2 : st'.errors = st.errors) (h3 : st'.reports = st.reports) (h4 : st'.reported = st.reported) :
+    Frame T src sec st st' :=
   ⟨fun x => by rw [h1], fun x _ => by rw [h1], fun x _ _ => by rw [h1], fun x _ => by rw [h1],
-   fun p hp => by rw [h2]; exact hp, fun p hp => .inl (by rw [h2] at hp; exact hp), ⟨[], by simp [h3]⟩⟩
+   fun p hp => by rw [h2]; exact hp, fun p hp => .inl (by rw [h2] at hp; exact hp),
+   fun k hk => by rw [h4]; exact hk, fun k hk => .inl (by rw [h4] at hk; exact hk), ⟨[], by simp [h3]⟩⟩
 
 theorem frame_parseDocstring (T : Obj → Prop) (env : Env) (obj src : Obj) (st : St) (doc : Text) :
     Frame T src 0 st (parseDocstring env st obj doc src).2 := by
   unfold parseDocstring
   refine Frame.trans (b := if getDocformat env src = Docformat.unknown then { st with importMsg := true } else st)
-    ?_ (frame_reportErrors _ _ _ _ _)
-  split <;> exact Frame.of_eq rfl rfl rfl
+    ?_ (frame_reportErrors _ _ _ _ _ _)
+  split <;> exact Frame.of_eq rfl rfl rfl rfl
 
 @[simp] theorem parseDocstring_objs (env : Env) (obj src : Obj) (st : St) (doc : Text) :
     (parseDocstring env st obj doc src).2.objs = st.objs := by
@@ -221,7 +263,7 @@ theorem frame_safeToStanOut (T : Obj → Prop) (src ctx : Obj) (sec0 : Sec) (st 
     | true =>
       obtain ⟨h1, h2⟩ := hrep rfl
       subst h1; subst h2
-      simpa using Frame.trans hfb (frame_reportErrors _ _ _ _ _)
+      simpa using Frame.trans hfb (frame_reportErrors _ _ _ _ _ .rendering)
 
 theorem frame_formatFields (env : Env) (obj src : Obj) :
     ∀ (fs : List Field) (st : St), Frame (Only obj) src 0 st (formatFields env st obj src fs).2
@@ -447,7 +489,7 @@ def envCx : Env where
   bases := fun _ => []
   decorators := fun _ => []
 
-def stCx : St := ⟨fun _ => ⟨some ['x'], none, none, none⟩, [], [], false⟩
+def stCx : St := ⟨fun _ => ⟨some ['x'], none, none, none⟩, [], [], false, []⟩
 
 /-- the situation that used to abort (`to_node` raises ValueError) now yields "no table of contents" -/
 example : (formatToc envCx stCx 0).1.isOk = true ∧ (formatDocstring envCx stCx 0).1.isOk = true := by
@@ -468,8 +510,8 @@ def bodyOf : Res DocOut → Option Stan
   | .raises _ => none
 
 
-theorem reportErrors_importMsg (st : St) (b : Bool) (o : Obj) (errs : List Err) (sec : Sec) :
-    reportErrors { st with importMsg := b } o errs sec = { reportErrors st o errs sec with importMsg := b } := by
+theorem reportErrors_importMsg (st : St) (b : Bool) (o : Obj) (errs : List Err) (sec : Sec) (ph : Phase) :
+    reportErrors { st with importMsg := b } o errs sec ph = { reportErrors st o errs sec ph with importMsg := b } := by
   unfold reportErrors
   split
   · rfl
@@ -479,12 +521,14 @@ theorem parseDocstring_snd (env : Env) (st : St) (obj src : Obj) (doc : Text) :
     (parseDocstring env st obj doc src).2.errors =
       (reportErrors st src (parseResult doc (runParser env (getDocformat env src) obj doc)).2 0).errors ∧
     (parseDocstring env st obj doc src).2.reports =
-      (reportErrors st src (parseResult doc (runParser env (getDocformat env src) obj doc)).2 0).reports := by
+      (reportErrors st src (parseResult doc (runParser env (getDocformat env src) obj doc)).2 0).reports ∧
+    (parseDocstring env st obj doc src).2.reported =
+      (reportErrors st src (parseResult doc (runParser env (getDocformat env src) obj doc)).2 0).reported := by
   unfold parseDocstring
   simp only []
   split
-  · rw [reportErrors_importMsg]; exact ⟨rfl, rfl⟩
-  · exact ⟨rfl, rfl⟩
+  · rw [reportErrors_importMsg]; exact ⟨rfl, rfl, rfl⟩
+  · exact ⟨rfl, rfl, rfl⟩
 
 /-- `Docstring.fallback_full_text`, parser half: when the parser (or the processtypes step) raises —
 a `ParseError` or anything else — the parsed form is the plaintext of the ENTIRE input; and if the
@@ -493,11 +537,11 @@ one report group is opened, all of it against the source object. -/
 theorem parse_fallback_full_text (env : Env) (st : St) (obj src : Obj) (doc : Text) (errs : List Err) (e : Exc)
     (h : runParser env (getDocformat env src) obj doc = .raises errs e) :
     (parseDocstring env st obj doc src).1 = .plain doc ∧
-    ((e.isParseError = true → errs ≠ []) → (0, src) ∉ st.errors →
-      (parseDocstring env st obj doc src).2.errors = st.errors ++ [(0, src)] ∧
+    ((e.isParseError = true → errs ≠ []) → (0, src, Phase.parsing) ∉ st.reported →
+      (0, src) ∈ (parseDocstring env st obj doc src).2.errors ∧
       ∃ new, new ≠ [] ∧ (parseDocstring env st obj doc src).2.reports = st.reports ++ new ∧
         ∀ r ∈ new, r.obj = src ∧ r.sec = 0) := by
-  obtain ⟨he, hr⟩ := parseDocstring_snd env st obj src doc
+  obtain ⟨he, hr, _⟩ := parseDocstring_snd env st obj src doc
   refine ⟨?_, ?_⟩
   · simp only [parseDocstring, h, parseResult]; split <;> rfl
   · intro hc hn
@@ -507,8 +551,8 @@ theorem parse_fallback_full_text (env : Env) (st : St) (obj src : Obj) (doc : Te
       split
       · rename_i hp; exact hc hp
       · simp
-    obtain ⟨e1, e2⟩ := reportErrors_fresh st src _ 0 hne hn
-    refine ⟨e1, _, ?_, e2, ?_⟩
+    obtain ⟨_, _, e2⟩ := reportErrors_fresh st src _ 0 .parsing hne hn
+    refine ⟨reportErrors_fresh_mem _ _ _ _ _ hne hn, _, ?_, e2, ?_⟩
     · simpa using hne
     · intro r hr'
       obtain ⟨_, _, rfl⟩ := List.mem_map.mp hr'
@@ -618,26 +662,27 @@ the body of object 1 is object 0's text and the report names object 0 -/
 example :
     bodyOf (formatDocstring { envCx with inherited := fun o => if o = 1 then [0] else [],
                                          toStan := fun _ => .raises (.other 3) }
-              ⟨fun o => if o = 0 then ⟨some ['x', 'y'], none, none, none⟩ else ⟨none, none, none, none⟩, [], [], false⟩ 1).1
+              ⟨fun o => if o = 0 then ⟨some ['x', 'y'], none, none, none⟩ else ⟨none, none, none, none⟩, [], [], false, []⟩ 1).1
       = some (.pre ['x', 'y']) := by decide
 
-/-- … and that failure is reported against the source object, provided the object was not already
-reported (`reportErrors` files at most one group per object and section) -/
+/-- … and that failure is reported against the source object (4690c0c: also when parsing the same
+docstring already produced a warning), provided no RENDERING failure of the object was reported before
+(`reportErrors` files at most one group per object, section and phase) -/
 theorem render_failure_reported (env : Env) (st : St) (obj src : Obj) (pd : PD) (e : Exc)
     (hsrc : (ensureParsed env st obj).1 = some src)
     (hpd : ((ensureParsed env st obj).2.objs obj).parsed = some pd)
     (hraise : pdToStan env pd = .raises e)
-    (hn : (0, src) ∉ (ensureParsed env st obj).2.errors) :
+    (hn : (0, src, Phase.rendering) ∉ (ensureParsed env st obj).2.reported) :
     (0, src) ∈ (formatDocstring env st obj).2.errors ∧
     ⟨src, 0, .exc e, 0⟩ ∈ (formatDocstring env st obj).2.reports := by
   simp only [formatDocstring, hsrc, hpd, safeToStan, safeToStanOut, hraise]
   have hfb : ∀ st0 : St, (applyFallback st0 .docstring src).2 = st0 := by
     intro st0; unfold applyFallback; simp only []; split <;> rfl
   rw [hfb]
-  obtain ⟨e1, e2⟩ := reportErrors_fresh _ src [toStanError e] 0 (by simp) hn
+  obtain ⟨_, _, e2⟩ := reportErrors_fresh _ src [toStanError e] 0 .rendering (by simp) hn
   obtain ⟨m1, m2⟩ := formatFields_reports_prefix env obj src (pdFields pd)
-    (reportErrors (ensureParsed env st obj).2 src [toStanError e] 0)
-  refine ⟨m1 _ (by rw [e1]; simp), m2 _ ?_⟩
+    (reportErrors (ensureParsed env st obj).2 src [toStanError e] 0 .rendering)
+  refine ⟨m1 _ (reportErrors_fresh_mem _ _ _ _ _ (by simp) hn), m2 _ ?_⟩
   rw [e2]; simp [toStanError, Err.offset, Err.linenum]
 
 /-- the parser recovers with one warning, then `to_stan` raises -/
@@ -645,12 +690,21 @@ def envMasked : Env :=
   { envCx with parser := fun _ _ _ => .returns (.user 1 []) [⟨.msg 7, some 2, false⟩],
                toStan := fun _ => .raises (.other 3) }
 
-/-- the side condition of `render_failure_reported` is needed: after a docutils warning has been
-reported for the object, a renderer failure on the same object is shown as plain text but does
-not reach the log (only the earlier warning does) -/
-theorem render_failure_masked_counterexample :
-    (formatDocstring envMasked stCx 0).2.reports = [⟨0, 0, .msg 7, 2⟩] ∧
-    bodyOf (formatDocstring envMasked stCx 0).1 = some (.pre ['x']) := by
+/-- since 4690c0c the renderer failure is logged after the parser's warning, and the whole text is shown -/
+theorem render_failure_after_warning_reported :
+    (formatDocstring envMasked stCx 0).2.reports = [⟨0, 0, .msg 7, 2⟩, ⟨0, 0, .exc (.other 3), 0⟩] ∧
+    bodyOf (formatDocstring envMasked stCx 0).1 = some (.pre ['x']) ∧
+    (formatDocstring envMasked stCx 0).2.errors = [(0, 0)] := by
+  decide
+
+/-- HISTORICAL (before 4690c0c, `reportErrorsOld`): one report group per (section, object) — after the
+parser's warning had been reported, the renderer's failure on the same object found the object
+already in `parse_errors` and was dropped from the log; the phase-keyed `reportErrors` keeps it -/
+theorem render_failure_masked_old_counterexample :
+    let warn : Err := ⟨.msg 7, some 2, false⟩
+    (reportErrorsOld (reportErrorsOld stCx 0 [warn] 0) 0 [toStanError (.other 3)] 0).reports = [⟨0, 0, .msg 7, 2⟩] ∧
+    (reportErrors (reportErrors stCx 0 [warn] 0 .parsing) 0 [toStanError (.other 3)] 0 .rendering).reports
+      = [⟨0, 0, .msg 7, 2⟩, ⟨0, 0, .exc (.other 3), 0⟩] := by
   decide
 
 /-- the summary of a plain-text docstring whose `to_stan` raises (an XML-invalid character) -/
@@ -677,7 +731,7 @@ wrappers are concerned: an object whose `docstring` has been blanked to `''` whi
 falls back to the EMPTY text when rendering fails — `format_docstring_fallback` can only show
 `ctx.docstring`.  The failure itself is reported. -/
 theorem blanked_docstring_fallback_counterexample :
-    let st : St := ⟨fun _ => ⟨some [], some (.user 1 []), none, none⟩, [], [], false⟩
+    let st : St := ⟨fun _ => ⟨some [], some (.user 1 []), none, none⟩, [], [], false, []⟩
     let env := { envCx with toStan := fun _ => .raises (.other 3) }
     bodyOf (formatDocstring env st 0).1 = some (.pre []) ∧
     (formatDocstring env st 0).2.reports = [⟨0, 0, .exc (.other 3), 0⟩] := by
@@ -687,40 +741,53 @@ theorem blanked_docstring_fallback_counterexample :
 against the source object -/
 theorem recovered_errors_reported (env : Env) (st : St) (obj src : Obj) (doc : Text) (pd : PD) (errs : List Err)
     (h : runParser env (getDocformat env src) obj doc = .returns pd errs)
-    (he : errs ≠ []) (hn : (0, src) ∉ st.errors) :
+    (he : errs ≠ []) (hn : (0, src, Phase.parsing) ∉ st.reported) :
     (parseDocstring env st obj doc src).1 = pd ∧
-    (parseDocstring env st obj doc src).2.errors = st.errors ++ [(0, src)] ∧
+    (0, src) ∈ (parseDocstring env st obj doc src).2.errors ∧
     (parseDocstring env st obj doc src).2.reports =
       st.reports ++ errs.map fun e => ⟨src, 0, e.descr, e.offset⟩ := by
-  obtain ⟨h1, h2⟩ := parseDocstring_snd env st obj src doc
+  obtain ⟨h1, h2, _⟩ := parseDocstring_snd env st obj src doc
   rw [h1, h2, h]
-  obtain ⟨e1, e2⟩ := reportErrors_fresh st src errs 0 he hn
-  exact ⟨by simp [parseDocstring, h, parseResult], e1, e2⟩
+  obtain ⟨_, _, e2⟩ := reportErrors_fresh st src errs 0 .parsing he hn
+  exact ⟨by simp [parseDocstring, h, parseResult], reportErrors_fresh_mem _ _ _ _ _ he hn, e2⟩
 
 example : ∃ env, ∃ st : St, runParser env (getDocformat env 0) 0 ['a'] = .returns (.user 1 []) [⟨.msg 7, some 2, false⟩] ∧
-    (0, 0) ∉ st.errors :=
+    (0, 0, Phase.parsing) ∉ st.reported :=
   ⟨envMasked, stCx, by decide, by decide⟩
 
 /-! ## C08 theorems: reported once; no other object is affected -/
 
-/-- `Docstring.reported_once`: an object already reported in a section is never reported again
-there, whatever is called on whatever object afterwards; and the set of reported objects only grows -/
+/-- `Docstring.reported_once`: an object whose parsing AND rendering problems have been reported in a
+section is never reported again there, whatever is called on whatever object afterwards; what has been
+recorded (`parse_errors`, `reported_errors`) only grows -/
 theorem reported_once (env : Env) (st : St) (op : Op) (obj : Obj) (sec : Sec) (o : Obj)
-    (h : (sec, o) ∈ st.errors) :
-    reportsOf (step env st op obj).2 sec o = reportsOf st sec o ∧ (sec, o) ∈ (step env st op obj).2.errors := by
+    (h : ∀ ph, (sec, o, ph) ∈ st.reported) :
+    reportsOf (step env st op obj).2 sec o = reportsOf st sec o ∧
+    (∀ p ∈ st.errors, p ∈ (step env st op obj).2.errors) ∧
+    (∀ k ∈ st.reported, k ∈ (step env st op obj).2.reported) := by
   have hf := frame_step env st op obj
-  refine ⟨?_, hf.errors_mono _ h⟩
+  refine ⟨?_, hf.errors_mono, hf.reported_mono⟩
   obtain ⟨new, e, p⟩ := hf.reports
   unfold reportsOf
   rw [e, List.filter_append]
   have : new.filter (fun r => decide (r.sec = sec ∧ r.obj = o)) = [] := by
     rw [List.filter_eq_nil_iff]
     intro r hr hc
-    obtain ⟨h1, h2, h3, _⟩ := p r hr
+    obtain ⟨h1, h2, _, ph, h3, _⟩ := p r hr
     simp only [decide_eq_true_eq] at hc
     rw [h1, h2] at hc
-    exact h3 (by rw [hc.1, hc.2]; exact h)
+    exact h3 (by rw [hc.1, hc.2]; exact h ph)
   rw [this, List.append_nil]
+
+/-- each phase on its own: once `(sec, o, ph)` is recorded, no later call files a report under that key
+(each new report group is opened under a key that was not recorded before) -/
+theorem reported_once_phase (env : Env) (st : St) (op : Op) (obj : Obj) :
+    ∃ new, (step env st op obj).2.reports = st.reports ++ new ∧
+      ∀ r ∈ new, ∃ ph, (r.sec, r.obj, ph) ∉ st.reported ∧ (r.sec, r.obj, ph) ∈ (step env st op obj).2.reported := by
+  obtain ⟨new, e, p⟩ := (frame_step env st op obj).reports
+  refine ⟨new, e, fun r hr => ?_⟩
+  obtain ⟨h1, h2, _, ph, h3, h4⟩ := p r hr
+  exact ⟨ph, by rw [h1, h2]; exact h3, by rw [h1, h2]; exact h4⟩
 
 /-- `Docstring.isolation`: one call on `obj` (whose docstring comes from `src`) changes nothing about
 any other object `B`: not its docstring, parsed form, summary or parsed type, not its reports, not
@@ -777,7 +844,7 @@ def envInherit : Env :=
                walk := fun _ => .summary 2,
                toStan := fun k => if k = 2 then .raises (.other 3) else .returns (.opaque k) }
 
-def stInherit : St := ⟨fun o => if o = 0 then ⟨some ['x'], none, none, none⟩ else ⟨none, none, none, none⟩, [], [], false⟩
+def stInherit : St := ⟨fun o => if o = 0 then ⟨some ['x'], none, none, none⟩ else ⟨none, none, none, none⟩, [], [], false, []⟩
 
 /-- the one cross-object effect the code has: a failing summary of an INHERITED docstring marks the
 summary of the object it was inherited from as broken (`format_summary_fallback` writes to `ctx`,
@@ -806,65 +873,67 @@ theorem ensureParsed_stable (env : Env) (st st2 : St) (obj : Obj)
   cases hgd : getDocstring st (obj :: env.inherited obj) <;> cases hpp : (st.objs obj).parsed <;>
     simp only [ensureParsed, hg, hgd, hpp] <;> intro hp <;> simp_all
 
-theorem reportErrors_congr (a b : St) (o : Obj) (errs : List Err) (sec : Sec)
-    (he : a.errors = b.errors) (hr : a.reports = b.reports) :
-    (reportErrors a o errs sec).errors = (reportErrors b o errs sec).errors ∧
-    (reportErrors a o errs sec).reports = (reportErrors b o errs sec).reports := by
-  unfold reportErrors
-  rw [he]
+/-- two states with the same log (reported objects, report list, reported keys) -/
+def RE (a b : St) : Prop := a.errors = b.errors ∧ a.reports = b.reports ∧ a.reported = b.reported
+
+theorem RE.rfl' (a : St) : RE a a := ⟨rfl, rfl, rfl⟩
+theorem RE.trans' {a b c : St} (h1 : RE a b) (h2 : RE b c) : RE a c :=
+  ⟨h1.1.trans h2.1, h1.2.1.trans h2.2.1, h1.2.2.trans h2.2.2⟩
+
+theorem reportErrors_congr (a b : St) (o : Obj) (errs : List Err) (sec : Sec) (ph : Phase) (h : RE a b) :
+    RE (reportErrors a o errs sec ph) (reportErrors b o errs sec ph) := by
+  obtain ⟨he, hr, hk⟩ := h
+  unfold reportErrors RE
+  rw [hk]
   split
-  · exact ⟨he, hr⟩
+  · exact ⟨he, hr, hk⟩
   · split
-    · exact ⟨he, hr⟩
-    · simp [hr]
+    · exact ⟨he, hr, hk⟩
+    · simp [he, hr]
 
-/-- two states with the same log (reported set and report list) -/
-def RE (a b : St) : Prop := a.errors = b.errors ∧ a.reports = b.reports
-
-theorem RE.rfl' (a : St) : RE a a := ⟨rfl, rfl⟩
-theorem RE.trans' {a b c : St} (h1 : RE a b) (h2 : RE b c) : RE a c := ⟨h1.1.trans h2.1, h1.2.trans h2.2⟩
-
-/-- a state transformer that files reports only against `(0, src)` through `reportErrors`, never
-touches docstrings or parsed docstrings, and whose effect on the log depends on the log only -/
-structure Rep (src : Obj) (f : St → St) : Prop where
-  fresh : ∀ st, RE (f st) st ∨ (0, src) ∈ (f st).errors
-  noop : ∀ st, (0, src) ∈ st.errors → RE (f st) st
+/-- a state transformer that files reports only under the key `(0, src, ph)` through `reportErrors`,
+never touches docstrings or parsed docstrings, and whose effect on the log depends on the log only -/
+structure Rep (src : Obj) (ph : Phase) (f : St → St) : Prop where
+  fresh : ∀ st, RE (f st) st ∨ (0, src, ph) ∈ (f st).reported
+  noop : ∀ st, (0, src, ph) ∈ st.reported → RE (f st) st
   congr : ∀ a b, RE a b → RE (f a) (f b)
   keeps : ∀ st x, ((f st).objs x).docstring = (st.objs x).docstring ∧ ((f st).objs x).parsed = (st.objs x).parsed
 
-theorem Rep.idem {src : Obj} {f : St → St} (h : Rep src f) (st : St) : RE (f (f st)) (f st) := by
+theorem Rep.idem {src : Obj} {ph : Phase} {f : St → St} (h : Rep src ph f) (st : St) : RE (f (f st)) (f st) := by
   rcases h.fresh st with h1 | h1
   · exact h.congr _ _ h1
   · exact h.noop _ h1
 
-theorem Rep.comp {src : Obj} {f g : St → St} (hf : Rep src f) (hg : Rep src g) : Rep src (fun st => g (f st)) := by
+theorem Rep.comp {src : Obj} {ph : Phase} {f g : St → St} (hf : Rep src ph f) (hg : Rep src ph g) :
+    Rep src ph (fun st => g (f st)) := by
   refine ⟨fun st => ?_, fun st h => ?_, fun a b h => hg.congr _ _ (hf.congr _ _ h), fun st x => ?_⟩
   · rcases hf.fresh st with h1 | h1
     · have h2 := hg.congr _ _ h1
       rcases hg.fresh st with h3 | h3
       · exact .inl (h2.trans' h3)
-      · right; show (0, src) ∈ (g (f st)).errors; rw [h2.1]; exact h3
-    · right; show (0, src) ∈ (g (f st)).errors; rw [(hg.noop _ h1).1]; exact h1
+      · right; show (0, src, ph) ∈ (g (f st)).reported; rw [h2.2.2]; exact h3
+    · right; show (0, src, ph) ∈ (g (f st)).reported; rw [(hg.noop _ h1).2.2]; exact h1
   · have h1 := hf.noop _ h
-    have h2 : (0, src) ∈ (f st).errors := by rw [h1.1]; exact h
+    have h2 : (0, src, ph) ∈ (f st).reported := by rw [h1.2.2]; exact h
     exact (hg.noop _ h2).trans' h1
   · exact ⟨((hg.keeps _ x).1).trans ((hf.keeps _ x).1), ((hg.keeps _ x).2).trans ((hf.keeps _ x).2)⟩
 
-theorem rep_id (src : Obj) : Rep src (fun st => st) :=
+theorem rep_id (src : Obj) (ph : Phase) : Rep src ph (fun st => st) :=
   ⟨fun st => .inl (RE.rfl' _), fun st _ => RE.rfl' _, fun _ _ h => h, fun _ _ => ⟨rfl, rfl⟩⟩
 
-theorem rep_reportErrors (src : Obj) (errs : List Err) : Rep src (fun st => reportErrors st src errs 0) := by
-  refine ⟨fun st => ?_, fun st h => by rw [reportErrors_noop _ _ _ _ h]; exact RE.rfl' _,
-          fun a b h => reportErrors_congr a b src errs 0 h.1 h.2, fun st x => by simp⟩
+theorem rep_reportErrors (src : Obj) (errs : List Err) (ph : Phase) :
+    Rep src ph (fun st => reportErrors st src errs 0 ph) := by
+  refine ⟨fun st => ?_, fun st h => by rw [reportErrors_noop _ _ _ _ _ h]; exact RE.rfl' _,
+          fun a b h => reportErrors_congr a b src errs 0 ph h, fun st x => by simp⟩
   by_cases he : errs = []
   · left; rw [he, reportErrors_nil]; exact RE.rfl' _
-  · right; exact reportErrors_mem _ _ _ _ he
+  · right; exact reportErrors_key _ _ _ _ _ he
 
-theorem rep_setPType (src o : Obj) (b : Body) : Rep src (fun st => setPType st o b) :=
-  ⟨fun st => .inl ⟨rfl, rfl⟩, fun st _ => ⟨rfl, rfl⟩, fun _ _ h => h, fun st x => by simp⟩
+theorem rep_setPType (src o : Obj) (ph : Phase) (b : Body) : Rep src ph (fun st => setPType st o b) :=
+  ⟨fun st => .inl ⟨rfl, rfl, rfl⟩, fun st _ => ⟨rfl, rfl, rfl⟩, fun _ _ h => h, fun st x => by simp⟩
 
 theorem rep_safeToStanOut (src : Obj) (out : StanOut) (fb : Fallback) (hfb : fb ≠ .summary) :
-    Rep src (fun st => (safeToStanOut st out src fb true 0).2) := by
+    Rep src .rendering (fun st => (safeToStanOut st out src fb true 0).2) := by
   have hfb' : ∀ st0 : St, (applyFallback st0 fb src).2 = st0 := by
     intro st0; unfold applyFallback
     cases fb with
@@ -872,18 +941,18 @@ theorem rep_safeToStanOut (src : Obj) (out : StanOut) (fb : Fallback) (hfb : fb 
     | broken => rfl
     | summary => exact absurd rfl hfb
   cases out with
-  | returns s => exact rep_id src
+  | returns s => exact rep_id src _
   | raises e =>
     simp only [safeToStanOut, hfb', if_true]
-    exact rep_reportErrors src _
+    exact rep_reportErrors src _ _
 
 theorem rep_formatFields (env : Env) (obj src : Obj) :
-    ∀ fs : List Field, Rep src (fun st => (formatFields env st obj src fs).2)
-  | [] => rep_id src
+    ∀ fs : List Field, Rep src .rendering (fun st => (formatFields env st obj src fs).2)
+  | [] => rep_id src _
   | f :: fs => by
     have ih := rep_formatFields env obj src fs
     have hfmt := Rep.comp (rep_safeToStanOut src (bodyToStan env f.body) .broken (by decide)) ih
-    have hset := Rep.comp (rep_setPType src obj f.body) ih
+    have hset := Rep.comp (rep_setPType src obj .rendering f.body) ih
     cases ht : f.tag
     · simpa [formatFields, ht] using hfmt
     · simpa [formatFields, ht] using hfmt
@@ -915,7 +984,7 @@ theorem safeToStanOut_noreport (st : St) (out : StanOut) (ctx : Obj) (fb : Fallb
 def docTail (env : Env) (pd : PD) (obj src : Obj) (st : St) : St :=
   (formatFields env (safeToStanOut st (pdToStan env pd) src .docstring true 0).2 obj src (pdFields pd)).2
 
-theorem rep_docTail (env : Env) (pd : PD) (obj src : Obj) : Rep src (docTail env pd obj src) := by
+theorem rep_docTail (env : Env) (pd : PD) (obj src : Obj) : Rep src .rendering (docTail env pd obj src) := by
   have h := Rep.comp (rep_safeToStanOut src (pdToStan env pd) .docstring (by decide))
     (rep_formatFields env obj src (pdFields pd))
   exact h
@@ -1001,24 +1070,28 @@ theorem formatToc_tail (env : Env) (st : St) (obj : Obj) :
     · exact ⟨rfl, rfl, fun _ => rfl⟩
 
 theorem splitFields_log : ∀ (fs : List Field) (st : St),
-    (splitFields st fs).errors = st.errors ∧ (splitFields st fs).reports = st.reports ∧
-    ∀ x, ((splitFields st fs).objs x).docstring = (st.objs x).docstring
-  | [], st => ⟨rfl, rfl, fun _ => rfl⟩
+    RE (splitFields st fs) st ∧ ∀ x, ((splitFields st fs).objs x).docstring = (st.objs x).docstring
+  | [], st => ⟨RE.rfl' _, fun _ => rfl⟩
   | f :: fs, st => by
     cases ht : f.tag <;> cases ha : f.arg <;> simp only [splitFields, ht, ha]
     all_goals first
       | exact splitFields_log fs st
-      | (obtain ⟨a, b, c⟩ := splitFields_log fs (setPType st _ f.body); exact ⟨a, b, fun x => by rw [c]; simp⟩)
-      | (obtain ⟨a, b, c⟩ := splitFields_log fs (setParsed st _ (bodyPd f.body)); exact ⟨a, b, fun x => by rw [c]; simp⟩)
+      | (obtain ⟨a, c⟩ := splitFields_log fs (setPType st _ f.body); exact ⟨a, fun x => by rw [c]; simp⟩)
+      | (obtain ⟨a, c⟩ := splitFields_log fs (setParsed st _ (bodyPd f.body)); exact ⟨a, fun x => by rw [c]; simp⟩)
+
+theorem parseDocstring_RE (env : Env) (st : St) (obj src : Obj) (doc : Text) :
+    RE (parseDocstring env st obj doc src).2
+       (reportErrors st src (parseResult doc (runParser env (getDocformat env src) obj doc)).2 0 .parsing) := by
+  obtain ⟨a, b, c⟩ := parseDocstring_snd env st obj src doc
+  exact ⟨a, b, c⟩
 
 theorem extractFields_of (env : Env) (s : St) (obj : Obj) (d : Text) (hd : (s.objs obj).docstring = some d) :
-    (extractFields env s obj).2.errors = (parseDocstring env s obj d obj).2.errors ∧
-    (extractFields env s obj).2.reports = (parseDocstring env s obj d obj).2.reports ∧
+    RE (extractFields env s obj).2 (parseDocstring env s obj d obj).2 ∧
     ((extractFields env s obj).2.objs obj).docstring = some d := by
   simp only [extractFields, hd]
-  obtain ⟨a, b, c⟩ := splitFields_log (pdFields (parseDocstring env s obj d obj).1)
+  obtain ⟨a, c⟩ := splitFields_log (pdFields (parseDocstring env s obj d obj).1)
     (setParsed (parseDocstring env s obj d obj).2 obj (parseDocstring env s obj d obj).1)
-  exact ⟨a, b, by rw [c]; simp [hd]⟩
+  exact ⟨a, by rw [c]; simp [hd]⟩
 
 /-- `Docstring.reported_once`, second-call form: calling the same entry point again on the same
 object adds no report and no reported object (parse results are cached; a renderer that fails
@@ -1032,7 +1105,7 @@ theorem second_call_silent (env : Env) (st : St) (op : Op) (obj : Obj) :
       (fun x => ensureParsed_docstring env st obj x) rfl
     rw [h]; exact ⟨rfl, rfl⟩
   · -- doc
-    exact ⟨(doc_second_call env st obj).2, (doc_second_call env st obj).1⟩
+    exact ⟨(doc_second_call env st obj).2.1, (doc_second_call env st obj).1⟩
   · -- summary
     obtain ⟨a, b, c⟩ := formatSummary_tail env st obj
     obtain ⟨a2, b2, _⟩ := formatSummary_tail env (formatSummary env st obj).2 obj
@@ -1049,17 +1122,14 @@ theorem second_call_silent (env : Env) (st : St) (op : Op) (obj : Obj) :
     cases hd : (st.objs obj).docstring with
     | none => simp [extractFields, hd]
     | some d =>
-      obtain ⟨he1, hr1, hd2⟩ := extractFields_of env st obj d hd
-      obtain ⟨he2, hr2, _⟩ := extractFields_of env (extractFields env st obj).2 obj d hd2
-      obtain ⟨e1, r1⟩ := parseDocstring_snd env st obj obj d
-      obtain ⟨e2, r2⟩ := parseDocstring_snd env (extractFields env st obj).2 obj obj d
-      have he := he1.trans e1
-      have hr := hr1.trans r1
-      obtain ⟨c1, c2⟩ := reportErrors_congr _ _ obj
-        (parseResult d (runParser env (getDocformat env obj) obj d)).2 0 he hr
-      have hid := (rep_reportErrors obj (parseResult d (runParser env (getDocformat env obj) obj d)).2).idem st
-      rw [he2, hr2, e2, r2, c1, c2, hid.1, hid.2]
-      exact ⟨hr.symm, he.symm⟩
+      obtain ⟨h1, hd2⟩ := extractFields_of env st obj d hd
+      obtain ⟨h2, _⟩ := extractFields_of env (extractFields env st obj).2 obj d hd2
+      have hA := h1.trans' (parseDocstring_RE env st obj obj d)
+      have hB := h2.trans' (parseDocstring_RE env (extractFields env st obj).2 obj obj d)
+      have hC := reportErrors_congr _ _ obj (parseResult d (runParser env (getDocformat env obj) obj d)).2 0 .parsing hA
+      have hid := (rep_reportErrors obj (parseResult d (runParser env (getDocformat env obj) obj d)).2 .parsing).idem st
+      have hfin := (hB.trans' hC).trans' hid
+      exact ⟨hfin.2.1.trans hA.2.1.symm, hfin.1.trans hA.1.symm⟩
 
 /-! ## the other rendering wrappers: type2stan, constants, signatures, decorators, the search index -/
 
@@ -1080,7 +1150,7 @@ theorem pyval_old_raises_iff (env : Env) (st : St) (b : Body) (ctx : Obj) (sec :
 theorem pyval_state (env : Env) (st : St) (b : Body) (ctx : Obj) (sec : Sec) :
     (safeToStanPyval env st b ctx sec).2 = st ∨
     ∃ e, bodyToStan env b = .raises e ∧
-      (safeToStanPyval env st b ctx sec).2 = reportErrors st ctx [toStanError e] sec := by
+      (safeToStanPyval env st b ctx sec).2 = reportErrors st ctx [toStanError e] sec .rendering := by
   unfold safeToStanPyval
   cases hs : bodyToStan env b with
   | returns s => exact .inl rfl
@@ -1090,18 +1160,18 @@ theorem frame_pyval (T : Obj → Prop) (env : Env) (st : St) (b : Body) (ctx : O
     Frame T ctx sec st (safeToStanPyval env st b ctx sec).2 := by
   rcases pyval_state env st b ctx sec with h | ⟨e, _, h⟩ <;> rw [h]
   · exact Frame.refl _ _ _ _
-  · exact frame_reportErrors _ _ _ _ _
+  · exact frame_reportErrors _ _ _ _ _ _
 
 /-- a renderer failure inside the colorized value / the type is reported against the object, in the
 wrapper's own section — whether or not the plain-text fallback could be built (then BROKEN is shown) -/
 theorem pyval_failure_reported (env : Env) (st : St) (b : Body) (ctx : Obj) (sec : Sec) (e : Exc)
     (hs : bodyToStan env b = .raises e) :
     ((safeToStanPyval env st b ctx sec).1 = .ok .code ∨ (safeToStanPyval env st b ctx sec).1 = .ok .broken) ∧
-    (sec, ctx) ∈ (safeToStanPyval env st b ctx sec).2.errors := by
+    (sec, ctx, Phase.rendering) ∈ (safeToStanPyval env st b ctx sec).2.reported := by
   simp only [safeToStanPyval, hs]
   cases bodyToNode env b
-  · exact ⟨.inl rfl, reportErrors_mem _ _ _ _ (by simp)⟩
-  · exact ⟨.inr rfl, reportErrors_mem _ _ _ _ (by simp)⟩
+  · exact ⟨.inl rfl, reportErrors_key _ _ _ _ _ (by simp)⟩
+  · exact ⟨.inr rfl, reportErrors_key _ _ _ _ _ (by simp)⟩
 
 /-- `format_signature` always returns: `(...)` and a report in section 'signature' on failure -/
 theorem signature_total (env : Env) (st : St) (obj : Obj) :
@@ -1111,13 +1181,13 @@ theorem signature_total (env : Env) (st : St) (obj : Obj) :
   · exact ⟨rfl, Frame.refl _ _ _ _⟩
   · exact ⟨rfl, Frame.refl _ _ _ _⟩
   · rename_i e _
-    exact ⟨rfl, frame_reportErrors (Only obj) obj secSignature st [toStanError e]⟩
+    exact ⟨rfl, frame_reportErrors (Only obj) obj secSignature st [toStanError e] .parsing⟩
 
 theorem signature_failure_reported (env : Env) (st : St) (obj : Obj) (e : Exc) (h : env.sigOut obj = some (.raises e)) :
     (formatSignature env st obj).1 = .ok .sigBroken ∧
-    (secSignature, obj) ∈ (formatSignature env st obj).2.errors := by
+    (secSignature, obj, Phase.parsing) ∈ (formatSignature env st obj).2.reported := by
   simp only [formatSignature, h]
-  exact ⟨trivial, reportErrors_mem _ _ _ _ (by simp)⟩
+  exact ⟨trivial, reportErrors_key _ _ _ _ _ (by simp)⟩
 
 theorem pyvalList_total (env : Env) (obj : Obj) (sec : Sec) :
     ∀ (ks : List Nat) (st : St), (pyvalList env obj sec st ks).1.isOk = true
@@ -1232,12 +1302,14 @@ structure Loose (T : Obj → Prop) (st st' : St) : Prop where
   objs : ∀ x, ¬ T x → st'.objs x = st.objs x
   errors_mono : ∀ p ∈ st.errors, p ∈ st'.errors
   errors_new : ∀ p ∈ st'.errors, p ∈ st.errors ∨ T p.2
+  reported_mono : ∀ k ∈ st.reported, k ∈ st'.reported
   reports : ∃ new, st'.reports = st.reports ++ new ∧
-      ∀ r ∈ new, T r.obj ∧ (r.sec, r.obj) ∉ st.errors ∧ (r.sec, r.obj) ∈ st'.errors
+      ∀ r ∈ new, T r.obj ∧ (r.sec, r.obj) ∈ st'.errors ∧
+        ∃ ph, (r.sec, r.obj, ph) ∉ st.reported ∧ (r.sec, r.obj, ph) ∈ st'.reported
 
 theorem Frame.loose {T : Obj → Prop} {src : Obj} {sec : Sec} {a b : St} (h : Frame T src sec a b)
     (T' : Obj → Prop) (hT : ∀ x, T x → T' x) (hs : T' src) : Loose T' a b := by
-  refine ⟨h.docstring, ?_, h.errors_mono, ?_, ?_⟩
+  refine ⟨h.docstring, ?_, h.errors_mono, ?_, h.reported_mono, ?_⟩
   · intro x hx
     have h0 : ¬ T x := fun c => hx (hT x c)
     have hne : x ≠ src := fun c => hx (c ▸ hs)
@@ -1254,12 +1326,13 @@ theorem Frame.loose {T : Obj → Prop} {src : Obj} {sec : Sec} {a b : St} (h : F
     · exact .inr (by rw [h']; exact hs)
   · obtain ⟨new, e, p⟩ := h.reports
     refine ⟨new, e, fun r hr => ?_⟩
-    obtain ⟨x1, x2, x3, x4⟩ := p r hr
-    exact ⟨by rw [x1]; exact hs, by rw [x1, x2]; exact x3, by rw [x1, x2]; exact x4⟩
+    obtain ⟨x1, x2, x3, ph, x4, x5⟩ := p r hr
+    exact ⟨by rw [x1]; exact hs, by rw [x1, x2]; exact x3, ph, by rw [x1, x2]; exact x4, by rw [x1, x2]; exact x5⟩
 
 theorem Loose.trans {T : Obj → Prop} {a b c : St} (h1 : Loose T a b) (h2 : Loose T b c) : Loose T a c := by
   refine ⟨fun x => (h2.docstring x).trans (h1.docstring x), fun x hx => (h2.objs x hx).trans (h1.objs x hx),
-          fun p hp => h2.errors_mono p (h1.errors_mono p hp), ?_, ?_⟩
+          fun p hp => h2.errors_mono p (h1.errors_mono p hp), ?_,
+          fun k hk => h2.reported_mono k (h1.reported_mono k hk), ?_⟩
   · intro p hp
     rcases h2.errors_new p hp with h | h
     · exact h1.errors_new p h
@@ -1268,10 +1341,10 @@ theorem Loose.trans {T : Obj → Prop} {a b c : St} (h1 : Loose T a b) (h2 : Loo
     obtain ⟨n2, e2, p2⟩ := h2.reports
     refine ⟨n1 ++ n2, by rw [e2, e1, List.append_assoc], fun r hr => ?_⟩
     rcases List.mem_append.mp hr with h | h
-    · obtain ⟨x1, x2, x3⟩ := p1 r h
-      exact ⟨x1, x2, h2.errors_mono _ x3⟩
-    · obtain ⟨x1, x2, x3⟩ := p2 r h
-      exact ⟨x1, fun hc => x2 (h1.errors_mono _ hc), x3⟩
+    · obtain ⟨x1, x2, ph, x3, x4⟩ := p1 r h
+      exact ⟨x1, h2.errors_mono _ x2, ph, x3, h2.reported_mono _ x4⟩
+    · obtain ⟨x1, x2, ph, x3, x4⟩ := p2 r h
+      exact ⟨x1, x2, ph, fun hc => x3 (h1.reported_mono _ hc), x4⟩
 
 /-- the objects a call of entry point `op` on `obj` may write or report against -/
 def xTouched (env : Env) (st : St) (op : XOp) (obj : Obj) : Obj → Prop := fun x =>
@@ -1405,9 +1478,10 @@ theorem x_isolation (env : Env) (st : St) (op : XOp) (obj B : Obj) (hB : ¬ xTou
     · exact h'
     · exact absurd h' hB
 
-/-- … and an (object, section) pair already reported is never reported again, by any of the calls -/
+/-- … and an (object, section) pair whose parsing and rendering problems have both been reported is never
+reported again, by any of the calls -/
 theorem x_reported_once (env : Env) (st : St) (op : XOp) (obj : Obj) (sec : Sec) (o : Obj)
-    (hm : (sec, o) ∈ st.errors) :
+    (hm : ∀ ph, (sec, o, ph) ∈ st.reported) :
     reportsOf (xstep env st op obj).2 sec o = reportsOf st sec o := by
   obtain ⟨new, e, p⟩ := (loose_xstep env st op obj).reports
   unfold reportsOf
@@ -1416,7 +1490,8 @@ theorem x_reported_once (env : Env) (st : St) (op : XOp) (obj : Obj) (sec : Sec)
     rw [List.filter_eq_nil_iff]
     intro r hr hc
     simp only [decide_eq_true_eq] at hc
-    exact (p r hr).2.1 (by rw [hc.1, hc.2]; exact hm)
+    obtain ⟨_, _, ph, h3, _⟩ := p r hr
+    exact h3 (by rw [hc.1, hc.2]; exact hm ph)
   rw [this, List.append_nil]
 
 /-! ## epytext: the anchor-uniquifying loop of `_slugify` terminates — given distinct candidates -/
